@@ -79,7 +79,7 @@ func (a *Real64) ConvertScalar(t ScalarType) Scalar {
   default:
     r := NullScalar(t)
     r.Set(a)
-    return a
+    return r
   }
 }
 func (a *Real64) ConvertMagicScalar(t ScalarType) MagicScalar {
